@@ -20,8 +20,10 @@ Print Assumptions C35_git_sort_function_of_entry_set.
 (* incremental (_tree_to_objects with parent trees and the id-map cache, plus the root handling
    of _revision_to_objects) = from scratch (directory_to_tree over the whole tree).
    Hypotheses: the cache is consistent with the stored texts; every entry's (file id, revision)
-   names its text; paths are unique; and iter_changes is complete in the one place it matters:
-   if nothing dirty was reported, the tree equals the left-hand parent's. *)
+   names its text; paths are unique; and iter_changes (bzrformats) is complete: if it reports no
+   change at all (and the revision has no unusual modes), the tree equals the left-hand parent's.
+   Since the repair 4f049bc no caveat about banned names is needed: every reported change,
+   exported or not, dirties its directories. *)
 Theorem C35_incremental_eq_scratch :
   forall (sha : Type) (Hb : bytes -> sha) (Ht : list (N * name * sha) -> sha)
          (texts : key -> bytes) (cache : key -> option sha) (others : list (list fent))
@@ -29,11 +31,11 @@ Theorem C35_incremental_eq_scratch :
     cache_consistent sha Hb cache texts ->
     keys_ok texts (flat t) -> Forall (keys_ok texts) others ->
     NoDup (map f_path (flat t)) ->
-    (dirty_dirs cs um = [] ->
+    ((forall c, In c cs -> c_old c = None /\ c_new c = None) -> um = [] ->
        erase t = erase base /\ ump = um /\
        parent_root = Some (gid Hb Ht (to_git_root ump (erase base)))) ->
     incremental Hb Ht cache others cs um parent_root t = gid Hb Ht (to_git_root um (erase t)).
-Proof. exact incremental_eq_scratch. Qed.
+Proof. exact incremental_eq_scratch_changes. Qed.
 Print Assumptions C35_incremental_eq_scratch.
 
 (* hypotheses are satisfiable by a non-trivial value: second revision modifies one of two files *)
@@ -46,17 +48,15 @@ Example C35_incremental_example :
   = gid HbG HtG (to_git_root [] (erase t)).
 Proof. split; vm_compute; [discriminate|reflexivity]. Qed.
 
-(* WITHOUT the completeness hypothesis the statement is false of the faithful model: a change
-   whose new name is banned (".git") is skipped before its directories are marked dirty, so a
-   revision whose only change renames a file to ".git" re-uses the parent's root tree, which
-   still lists the file under its old name.  (Replayed on the real code: candidate finding.) *)
-Theorem C35_incremental_banned_rename_refuted :
+(* regression for the repaired finding C35-banned-rename: a revision whose only change renames a
+   file to ".git" used to re-use the parent's root tree; now the root is dirty and recomputed *)
+Theorem C35_banned_rename_regression :
   let cs := changes (flat wit_base) (flat wit_t) in
-  cs <> [] /\
+  dirty_dirs cs [] <> [] /\
   incremental HbG HtG (cache_of [wit_base]) [] cs [] (Some (to_git_root [] (erase wit_base))) wit_t
-  <> gid HbG HtG (to_git_root [] (erase wit_t)).
-Proof. exact incremental_refuted. Qed.
-Print Assumptions C35_incremental_banned_rename_refuted.
+  = gid HbG HtG (to_git_root [] (erase wit_t)).
+Proof. exact incremental_banned_rename_ok. Qed.
+Print Assumptions C35_banned_rename_regression.
 
 (* push then fetch: importing the exported tree gives back paths, contents, executable bits and
    symlink targets; exactly the empty directories (and names git bans) are dropped *)
